@@ -29,3 +29,4 @@ def rules(ctx):
     S.restore_commit_rules(ctx)
     S.untracked_allocation_rules(ctx)
     S.after_bound_rules(ctx)
+    S.extract_state_rules(ctx)
